@@ -1026,6 +1026,18 @@ func (t *Table) AddCellFormattedText(row, col int, text string, format *TextForm
 
 // MergeCellsHorizontal 水平合并单元格（合并列）
 func (t *Table) MergeCellsHorizontal(row, startCol, endCol int) error {
+	if err := t.checkHorizontalMerge(row, startCol, endCol); err != nil {
+		return err
+	}
+
+	t.mergeRowCells(row, startCol, endCol)
+
+	Info(fmt.Sprintf("水平合并单元格：行%d，列%d到%d", row, startCol, endCol))
+	return nil
+}
+
+// checkHorizontalMerge 检查水平合并的参数，不修改表格
+func (t *Table) checkHorizontalMerge(row, startCol, endCol int) error {
 	if row < 0 || row >= len(t.Rows) {
 		return fmt.Errorf("行索引无效：%d", row)
 	}
@@ -1038,6 +1050,11 @@ func (t *Table) MergeCellsHorizontal(row, startCol, endCol int) error {
 		return fmt.Errorf("起始列和结束列不能相同")
 	}
 
+	return nil
+}
+
+// mergeRowCells 执行水平合并；参数必须已通过 checkHorizontalMerge 的检查
+func (t *Table) mergeRowCells(row, startCol, endCol int) {
 	// 设置起始单元格的网格跨度
 	startCell := &t.Rows[row].Cells[startCol]
 	if startCell.Properties == nil {
@@ -1056,13 +1073,22 @@ func (t *Table) MergeCellsHorizontal(row, startCol, endCol int) error {
 		newCells = append(newCells, t.Rows[row].Cells[endCol+1:]...)
 	}
 	t.Rows[row].Cells = newCells
-
-	Info(fmt.Sprintf("水平合并单元格：行%d，列%d到%d", row, startCol, endCol))
-	return nil
 }
 
 // MergeCellsVertical 垂直合并单元格（合并行）
 func (t *Table) MergeCellsVertical(startRow, endRow, col int) error {
+	if err := t.checkVerticalMerge(startRow, endRow, col); err != nil {
+		return err
+	}
+
+	t.mergeColumnCells(startRow, endRow, col)
+
+	Info(fmt.Sprintf("垂直合并单元格：行%d到%d，列%d", startRow, endRow, col))
+	return nil
+}
+
+// checkVerticalMerge 检查垂直合并的参数，不修改表格
+func (t *Table) checkVerticalMerge(startRow, endRow, col int) error {
 	if startRow < 0 || endRow >= len(t.Rows) || startRow > endRow {
 		return fmt.Errorf("行索引范围无效：[%d, %d]", startRow, endRow)
 	}
@@ -1082,6 +1108,11 @@ func (t *Table) MergeCellsVertical(startRow, endRow, col int) error {
 		}
 	}
 
+	return nil
+}
+
+// mergeColumnCells 执行垂直合并；参数必须已通过 checkVerticalMerge 的检查
+func (t *Table) mergeColumnCells(startRow, endRow, col int) {
 	// 设置起始单元格为合并起始
 	startCell := &t.Rows[startRow].Cells[col]
 	if startCell.Properties == nil {
@@ -1103,9 +1134,6 @@ func (t *Table) MergeCellsVertical(startRow, endRow, col int) error {
 		// 清空被合并单元格的内容
 		cell.Paragraphs = []Paragraph{{}}
 	}
-
-	Info(fmt.Sprintf("垂直合并单元格：行%d到%d，列%d", startRow, endRow, col))
-	return nil
 }
 
 // MergeCellsRange 合并单元格区域（多行多列）
@@ -1115,26 +1143,35 @@ func (t *Table) MergeCellsRange(startRow, endRow, startCol, endCol int) error {
 		return fmt.Errorf("行索引范围无效：[%d, %d]", startRow, endRow)
 	}
 
-	// 先水平合并每一行
+	// 修改前先检查每一行（各行的单元格数可能不同），保证失败时表格保持不变
 	for i := startRow; i <= endRow; i++ {
 		if startCol >= len(t.Rows[i].Cells) || endCol >= len(t.Rows[i].Cells) {
 			return fmt.Errorf("第%d行列索引范围无效：[%d, %d]", i, startCol, endCol)
 		}
 
 		if startCol != endCol {
-			err := t.MergeCellsHorizontal(i, startCol, endCol)
-			if err != nil {
+			if err := t.checkHorizontalMerge(i, startCol, endCol); err != nil {
 				return fmt.Errorf("水平合并第%d行失败：%v", i, err)
 			}
+		}
+	}
+	if startRow != endRow {
+		// 水平合并保留每行 startCol 及其之前的单元格，因此这里的检查在水平合并之后依然成立
+		if err := t.checkVerticalMerge(startRow, endRow, startCol); err != nil {
+			return fmt.Errorf("垂直合并失败：%v", err)
+		}
+	}
+
+	// 先水平合并每一行
+	if startCol != endCol {
+		for i := startRow; i <= endRow; i++ {
+			t.mergeRowCells(i, startCol, endCol)
 		}
 	}
 
 	// 然后垂直合并第一列
 	if startRow != endRow {
-		err := t.MergeCellsVertical(startRow, endRow, startCol)
-		if err != nil {
-			return fmt.Errorf("垂直合并失败：%v", err)
-		}
+		t.mergeColumnCells(startRow, endRow, startCol)
 	}
 
 	Info(fmt.Sprintf("合并单元格区域：行%d到%d，列%d到%d", startRow, endRow, startCol, endCol))
